@@ -24,6 +24,8 @@ type TimerObj struct {
 	deadline *Term
 	fn       *FuncV
 	fired    int
+	resets   int
+	pending  int
 }
 
 type retCapture struct {
